@@ -181,7 +181,7 @@ package analysis
 //@   requires pa != nil && pa.Types != nil
 //@   -- a named type is an enum exactly when the package declares a typed constant of it that is not opted out
 //@   ensures forall N *types.Named :: has(result, N) <==> (exists i int :: 0 <= i && i < len(pa.Types.Scope().Names()) && enumConst(pa, pa.Types.Scope().Names()[i], N))
-//@   ensures forall N *types.Named :: has(result, N) ==> result[N] != nil && result[N].name == N
+//@   ensures forall N *types.Named :: has(result, N) ==> result[N] != nil && result[N].name == N && allocated(result[N])
 //@   ensures forall i int, N *types.Named :: 0 <= i && i < len(pa.Types.Scope().Names()) && enumConst(pa, pa.Types.Scope().Names()[i], N) ==> has(result, N)
 //@   ensures !isnil(result) && fresh(result)
 //@   -- every detected enum has been classified by setIsIota (whose contract says what the flag means)
@@ -375,7 +375,7 @@ package analysis
 // (established by unverified callers: cmd, tests), never an axiom.
 //@ pred pkgsOK(root *packages.Package) bool = root != nil && (forall q *packages.Package :: q != nil ==> q.Types != nil) && (forall q *packages.Package, k string :: has(q.Imports, k) ==> q.Imports[k] != nil)
 // what the two accumulators hold at every point of the walk: enums are real nodes, union keys are named types
-//@ pred accuOK(E enumsMap, U unionsMap) bool = (forall N *types.Named :: has(E, N) ==> E[N] != nil && E[N].name == N) && (forall N *types.Named :: has(U, N) ==> is(N, *types.Named) && allocated(U[N]) && len(U[N]) > 0) && (forall N *types.Named, k int :: has(U, N) && 0 <= k && k < len(U[N]) ==> U[N][k] != nil && isMember(U[N][k], N)) && (forall N *types.Named, k1, k2 int :: has(U, N) && 0 <= k1 && k1 < k2 && k2 < len(U[N]) ==> U[N][k1].Obj().Name() < U[N][k2].Obj().Name())
+//@ pred accuOK(E enumsMap, U unionsMap) bool = (forall N *types.Named :: has(E, N) ==> E[N] != nil && E[N].name == N && allocated(E[N]) && ghost("iotaChecked", E[N]) == 1) && (forall N *types.Named :: has(U, N) ==> is(N, *types.Named) && allocated(U[N]) && len(U[N]) > 0) && (forall N *types.Named, k int :: has(U, N) && 0 <= k && k < len(U[N]) ==> U[N][k] != nil && isMember(U[N][k], N)) && (forall N *types.Named, k1, k2 int :: has(U, N) && 0 <= k1 && k1 < k2 && k2 < len(U[N]) ==> U[N][k1].Obj().Name() < U[N][k2].Obj().Name())
 
 // which imports are walked: a function of the package path and the selector (nothing is written)
 //@ func NewPkgSelector
@@ -385,10 +385,12 @@ package analysis
 //@ func PkgSelector.ignorePath
 //@   props C10 C11
 //@   pure
+//@   ensures result == (ps.prefix != "" && !strings.HasPrefix(path, ps.prefix))
 //@ func PkgSelector.Ignore
 //@   props C10 C11
 //@   pure
 //@   requires pa != nil
+//@   ensures result == ps.ignorePath(pa.PkgPath)
 
 //@ func fetchEnumsAndUnions$lit1
 //@   props C10 C11
@@ -402,6 +404,10 @@ package analysis
 //@   -- ... and every enum / union of the package itself is recorded (whatever the walk over its imports does afterwards)
 //@   ensures forall i int, N *types.Named :: 0 <= i && i < len(p.Types.Scope().Names()) && enumConst(p, p.Types.Scope().Names()[i], N) ==> has(outEnums, N)
 //@   ensures forall c *types.Named, i, j int :: 0 <= i && i < nameCount(p.Types.Scope()) && namedTypeAt(p, nameAt(p.Types.Scope(), i), c) && isItf(c) && 0 <= j && j < nameCount(p.Types.Scope()) && (exists m *types.Named :: namedTypeAt(p, nameAt(p.Types.Scope(), j), m) && isMember(m, c)) ==> has(outUnions, c)
+//@   -- one step of the walk: the enums of every directly imported package that the selector does not ignore are recorded
+//@   -- too (the unbounded statement needs reachability over the Imports field: bounded harness)
+//@   ensures forall k string, i int, N *types.Named :: has(p.Imports, k) && !selector.Ignore(p.Imports[k]) && 0 <= i && i < len(p.Imports[k].Types.Scope().Names()) && enumConst(p.Imports[k], p.Imports[k].Types.Scope().Names()[i], N) ==> has(outEnums, N)
+//@   ensures forall k string, c *types.Named, i, j int :: has(p.Imports, k) && !selector.Ignore(p.Imports[k]) && 0 <= i && i < nameCount(p.Imports[k].Types.Scope()) && namedTypeAt(p.Imports[k], nameAt(p.Imports[k].Types.Scope(), i), c) && isItf(c) && 0 <= j && j < nameCount(p.Imports[k].Types.Scope()) && (exists m *types.Named :: namedTypeAt(p.Imports[k], nameAt(p.Imports[k].Types.Scope(), j), m) && isMember(m, c)) ==> has(outUnions, c)
 //@   loop fetchPkgEnums(p).1 visited doneE
 //@   loop fetchPkgEnums(p).1 coll pe
 //@   loop fetchPkgEnums(p).1 invariant forall N *types.Named :: has(pe, N) == before(has(pe, N)) && pe[N] == before(pe[N])
@@ -415,7 +421,10 @@ package analysis
 //@   loop fetchPkgUnions(p).1 invariant forall N *types.Named :: old(has(outUnions, N)) || doneU[N] ==> has(outUnions, N)
 //@   loop fetchPkgUnions(p).1 invariant forall N *types.Named :: before(has(outEnums, N)) ==> has(outEnums, N)
 //@   loop fetchPkgUnions(p).1 invariant forall i int, N *types.Named :: 0 <= i && i < len(p.Types.Scope().Names()) && enumConst(p, p.Types.Scope().Names()[i], N) ==> has(outEnums, N)
+//@   loop p.Imports.1 visited doneI
 //@   loop p.Imports.1 invariant accuOK(outEnums, outUnions)
+//@   loop p.Imports.1 invariant forall k string, i int, N *types.Named :: doneI[k] && !selector.Ignore(p.Imports[k]) && 0 <= i && i < len(p.Imports[k].Types.Scope().Names()) && enumConst(p.Imports[k], p.Imports[k].Types.Scope().Names()[i], N) ==> has(outEnums, N)
+//@   loop p.Imports.1 invariant forall k string, c *types.Named, i, j int :: doneI[k] && !selector.Ignore(p.Imports[k]) && 0 <= i && i < nameCount(p.Imports[k].Types.Scope()) && namedTypeAt(p.Imports[k], nameAt(p.Imports[k].Types.Scope(), i), c) && isItf(c) && 0 <= j && j < nameCount(p.Imports[k].Types.Scope()) && (exists m *types.Named :: namedTypeAt(p.Imports[k], nameAt(p.Imports[k].Types.Scope(), j), m) && isMember(m, c)) ==> has(outUnions, c)
 //@   loop p.Imports.1 invariant forall i int, N *types.Named :: 0 <= i && i < len(p.Types.Scope().Names()) && enumConst(p, p.Types.Scope().Names()[i], N) ==> has(outEnums, N)
 //@   loop p.Imports.1 invariant forall N *types.Named :: before(has(outEnums, N)) ==> has(outEnums, N)
 //@   loop p.Imports.1 invariant forall N *types.Named :: before(has(outUnions, N)) ==> has(outUnions, N)
@@ -426,8 +435,15 @@ package analysis
 //@ func fetchEnumsAndUnions
 //@   props C10 C11
 //@   requires pkgsOK(pa)
-//@   ensures forall N *types.Named :: has(result1, N) ==> result1[N] != nil
+//@   -- every recorded enum is a real node named after its type that setIsIota has classified (its contract says what the flag means)
+//@   ensures forall N *types.Named :: has(result1, N) ==> result1[N] != nil && result1[N].name == N && ghost("iotaChecked", result1[N]) == 1
+//@   -- every recorded union keeps a non-empty list of implementers, strictly increasing by name (each once)
+//@   ensures forall N *types.Named, k int :: has(result2, N) && 0 <= k && k < len(result2[N]) ==> result2[N][k] != nil && isMember(result2[N][k], N)
+//@   ensures forall N *types.Named, k1, k2 int :: has(result2, N) && 0 <= k1 && k1 < k2 && k2 < len(result2[N]) ==> result2[N][k1].Obj().Name() < result2[N][k2].Obj().Name()
 //@   ensures forall N *types.Named :: has(result2, N) ==> is(N, *types.Named) && allocated(result2[N])
+//@   -- ... and those of every package the root imports directly, unless the selector (a local) ignores it
+//@   ensures forall k string, i int, N *types.Named :: has(pa.Imports, k) && !selector.Ignore(pa.Imports[k]) && 0 <= i && i < len(pa.Imports[k].Types.Scope().Names()) && enumConst(pa.Imports[k], pa.Imports[k].Types.Scope().Names()[i], N) ==> has(result1, N)
+//@   ensures forall k string, c *types.Named, i, j int :: has(pa.Imports, k) && !selector.Ignore(pa.Imports[k]) && 0 <= i && i < nameCount(pa.Imports[k].Types.Scope()) && namedTypeAt(pa.Imports[k], nameAt(pa.Imports[k].Types.Scope(), i), c) && isItf(c) && 0 <= j && j < nameCount(pa.Imports[k].Types.Scope()) && (exists m *types.Named :: namedTypeAt(pa.Imports[k], nameAt(pa.Imports[k].Types.Scope(), j), m) && isMember(m, c)) ==> has(result2, c)
 //@   ensures forall i int, N *types.Named :: 0 <= i && i < len(pa.Types.Scope().Names()) && enumConst(pa, pa.Types.Scope().Names()[i], N) ==> has(result1, N)
 //@   ensures forall c *types.Named, i, j int :: 0 <= i && i < nameCount(pa.Types.Scope()) && namedTypeAt(pa, nameAt(pa.Types.Scope(), i), c) && isItf(c) && 0 <= j && j < nameCount(pa.Types.Scope()) && (exists m *types.Named :: namedTypeAt(pa, nameAt(pa.Types.Scope(), j), m) && isMember(m, c)) ==> has(result2, c)
 
